@@ -259,4 +259,3 @@ func parens(xs []string) []string {
 	return o
 }
 
-func runH3(r *hk.Run, rng *hk.Rand) {}
